@@ -451,6 +451,10 @@ func (packet *PacketHandler) ReplaceBind(bindPacket *BindPacket) error {
 
 // GetSimpleQuery return query value as string from Query packet
 func (packet *PacketHandler) GetSimpleQuery() (string, error) {
+	// A Query message carries at least the terminator of its (possibly empty) query string.
+	if packet.dataLength < 1 {
+		return "", ErrPacketTruncated
+	}
 	return string(packet.descriptionBuf.Bytes()[:packet.dataLength-1]), nil
 }
 
